@@ -124,6 +124,10 @@ class Builder:
         for i in range(nlabs):
             want_trough = rng.random() < profile.get("p_trough", 0.35)
             self.specs.append(gen_trough(rng, used, profile) if want_trough else gen_plate(rng, used, profile))
+        if nlabs >= 2 and rng.random() < profile.get("p_same_name", 0.0):
+            # two different labware objects with the same name (an old and a fresh plate on the same carrier site):
+            # legal wherever nothing has to resolve a rack label back to an object (not in the replay streams of C01/C03)
+            self.specs[1]["name"] = self.specs[0]["name"]
         self.cfg = gen_cfg(rng, profile)
         self.cfg0 = self.cfg             # configuration the worklist is created with (op `reconfigure` replaces self.cfg)
         self.reconfigured = False
